@@ -324,3 +324,73 @@ theorem procChunks_of_pair {σ : Type} (proc : σ → List (Frame ℝ) → σ ×
     rw [← h1]
 
 end K
+
+namespace K
+
+/-- a fixed point of the transition: constant input gives constant output for ever -/
+theorem runTick_const {V : Type} (tick : V → Frame ℝ → V × Frame ℝ) (z : V) (f o : Frame ℝ)
+    (h : tick z f = (z, o)) (n : ℕ) :
+    runTick tick z (List.replicate n f) = (z, List.replicate n o) := by
+  induction n with
+  | zero => simp [runTick]
+  | succ n ih => simp [List.replicate_succ, runTick, h, ih]
+
+/-- the signal `f, f', f, f', …` of `2n` frames -/
+def altSig (n : ℕ) (f f' : Frame ℝ) : List (Frame ℝ) := (List.replicate n [f, f']).flatten
+
+/-- a period-2 orbit of the transition: alternating input gives alternating output for ever -/
+theorem runTick_alt {V : Type} (tick : V → Frame ℝ → V × Frame ℝ) (z z' : V) (f f' o o' : Frame ℝ)
+    (h : tick z f = (z', o)) (h' : tick z' f' = (z, o')) (n : ℕ) :
+    runTick tick z (altSig n f f') = (z, altSig n o o') := by
+  induction n with
+  | zero => simp [runTick, altSig]
+  | succ n ih =>
+    simp only [altSig, List.replicate_succ, List.flatten_cons, List.cons_append, List.nil_append,
+      runTick, h, h'] at ih ⊢
+    rw [ih]
+
+end K
+
+namespace K
+
+/-- a state the transition returns to on every frame of the signal: the output is a `map` -/
+theorem runTick_inv {V : Type} (tick : V → Frame ℝ → V × Frame ℝ) (z : V) (g : Frame ℝ → Frame ℝ)
+    (xs : List (Frame ℝ)) (h : ∀ f ∈ xs, tick z f = (z, g f)) : runTick tick z xs = (z, xs.map g) := by
+  induction xs with
+  | nil => simp [runTick]
+  | cons f fs ih =>
+    have h1 := h f (by simp)
+    have h2 := ih (fun f' hf' => h f' (by simp [hf']))
+    simp [runTick, h1, h2]
+
+end K
+
+namespace K
+
+/-- the signal `inp j, inp (j+1), …, inp (j+n-1)` -/
+def sigFrom (inp : ℕ → Frame ℝ) (j n : ℕ) : List (Frame ℝ) := (List.range n).map (fun i => inp (j + i))
+
+theorem sigFrom_succ (inp : ℕ → Frame ℝ) (j n : ℕ) :
+    sigFrom inp j (n + 1) = inp j :: sigFrom inp (j + 1) n := by
+  unfold sigFrom
+  rw [List.range_succ_eq_map]
+  simp only [List.map_cons, List.map_map, Nat.add_zero]
+  congr 1
+  apply List.map_congr_left
+  intro i _
+  simp only [Function.comp]
+  congr 1; omega
+
+/-- following a known orbit of the transition: if `tick (st i) (inp i) = (st (i+1), outp i)` for
+    every `i`, the fold over `inp j …` from `st j` produces `outp j …` and ends in `st (j+n)` -/
+theorem runTick_orbit {V : Type} (tick : V → Frame ℝ → V × Frame ℝ) (st : ℕ → V) (inp outp : ℕ → Frame ℝ)
+    (h : ∀ i, tick (st i) (inp i) = (st (i + 1), outp i)) (j n : ℕ) :
+    runTick tick (st j) (sigFrom inp j n) = (st (j + n), sigFrom outp j n) := by
+  induction n generalizing j with
+  | zero => simp [sigFrom, runTick]
+  | succ n ih =>
+    rw [sigFrom_succ, sigFrom_succ]
+    simp only [runTick, h, ih (j + 1)]
+    congr 2; omega
+
+end K
